@@ -610,9 +610,18 @@ def m_minmax(it, S, t, callee, args):
         if sv_type(vb) is None:
             set_ty(vb, inner)
         view = (("V", it.site()), ())
-        S.write(view, (which, inner, va, vb))
+        S.write(view, _minmax_value(S, which, inner, va, vb))
         return ("ref", view)
-    return (which, tykey(ty), a, b)
+    return _minmax_value(S, which, tykey(ty), a, b)
+
+
+def _minmax_value(S, which, ty, a, b):
+    # when the order of the two values is known the result is one of them (std: max returns the second argument on equality)
+    if S.prove_le(a, b, 0):
+        return b if which == "max" else a
+    if S.prove_le(b, a, -1):
+        return a if which == "max" else b
+    return (which, ty, a, b)
 
 
 @model("core::num::<impl u16>::max_value", "core::num::<impl u32>::max_value", "core::num::<impl u8>::max_value",
@@ -724,9 +733,94 @@ def m_int_cmp(it, S, t, callee, args):
     # total order on the integers: a pure function of the two values, in this argument order
     a = it.deref_value(S, args[0], 1, it.op_type(t["args"][0]))
     b = it.deref_value(S, args[1], 1, it.op_type(t["args"][1]))
+    for x in (a, b):
+        if sv_type(x) is None and not is_const(x):
+            inner = it.op_type(t["args"][0])
+            while inner.get("k") == "ref":
+                inner = inner["to"]
+            set_ty(x, tykey(inner))
+    if S.eval_cmp("Lt", a, b) is True:
+        return ORDERING(0)
+    if S.eval_cmp("Eq", a, b) is True:
+        return ORDERING(1)
+    if S.eval_cmp("Lt", b, a) is True:
+        return ORDERING(2)
     R = ("model", "cmp", a, b)
     set_ty(R, tykey(Place(t["dest"]).ty))
     return R
+
+
+def ORDERING(vi):
+    return ("agg", "core::cmp::Ordering", vi, ())
+
+
+@model("core::cmp::Ordering::reverse")
+def m_ordering_reverse(it, S, t, callee, args):
+    v = args[0]
+    if isinstance(v, tuple) and v[0] == "agg" and v[1] == "core::cmp::Ordering":
+        return ORDERING(2 - v[2])
+    if isinstance(v, tuple) and v[0] == "model" and v[1] == "cmp":
+        return ("model", "cmp", v[3], v[2])
+    R = ("model", "reverse", v)
+    set_ty(R, tykey(Place(t["dest"]).ty))
+    return R
+
+
+_INT_CMP = re.compile(r"^core::cmp::impls::<impl core::cmp::(Ord|PartialOrd) for (u8|u16|u32|u64|usize|i8|i16|i32|i64|isize)>::(cmp|partial_cmp)$")
+
+
+def _int_cmp_any(it, S, t, callee, args):
+    m = _INT_CMP.match(norm_name(callee.get("pretty")))
+    r = m_int_cmp(it, S, t, callee, args)
+    if m.group(3) == "partial_cmp":
+        if isinstance(r, tuple) and r[0] == "agg":
+            return ("agg", "core::option::Option", 1, (r,))
+        return None
+    return r
+
+
+PREFIX_MODELS.append((lambda name, c: _INT_CMP.match(name) is not None, _int_cmp_any))
+
+
+_INT_PARTIAL_ORD = re.compile(r"^(?:core::cmp::impls::<impl core::cmp::PartialOrd(?:<&B>)? for (?:&A|u8|u16|u32|u64|usize|i8|i16|i32|i64|isize)>|core::cmp::PartialOrd)::(lt|le|gt|ge)$")
+
+
+def _int_partial_ord(it, S, t, callee, args):
+    # comparison operators of the primitive integers (through any number of references)
+    op = {"lt": "Lt", "le": "Le", "gt": "Gt", "ge": "Ge"}[_INT_PARTIAL_ORD.match(norm_name(callee.get("pretty"))).group(1)]
+    ty = it.op_type(t["args"][0])
+    inner = ty
+    while inner.get("k") == "ref":
+        inner = inner["to"]
+    if inner.get("k") not in ("uint", "int"):
+        return None
+    a = it.deref_value(S, args[0], 3, ty)
+    b = it.deref_value(S, args[1], 3, it.op_type(t["args"][1]))
+    for x in (a, b):
+        if sv_type(x) is None and not is_const(x):
+            set_ty(x, tykey(inner))
+    r = S.eval_cmp(op, a, b)
+    if r is not None:
+        return K("bool", 1 if r else 0)
+    return ("cmp", op, a, b)
+
+
+PREFIX_MODELS.append((lambda name, c: _INT_PARTIAL_ORD.match(name) is not None, _int_partial_ord))
+
+
+def _overflowing(op):
+    def f(it, S, t, callee, args):
+        # (wrapped result, did it overflow) - std documentation of overflowing_add / overflowing_sub
+        ty = tykey(it.op_type(t["args"][0]))
+        w = ("bin", op + "W", ty, args[0], args[1])
+        flag = ("ovf", op, ty, args[0], args[1])
+        return ("agg", "tuple", 0, (w, flag))
+    return f
+
+
+for _t in ("u8", "u16", "u32", "u64", "usize"):
+    MODELS["core::num::<impl %s>::overflowing_add" % _t] = _overflowing("Add")
+    MODELS["core::num::<impl %s>::overflowing_sub" % _t] = _overflowing("Sub")
 
 
 # ----------------------------------------------------------------------------- Option / Result / Try
@@ -827,6 +921,38 @@ def m_as_ref(it, S, t, callee, args):
     S.add_le(("discr", R), d, 0)
     S.add_le(d, ("discr", R), 0)
     return ("upd", R, (((("dc", 1, "Some"), ("f", 0, "0")), ("ref", (loc[0], loc[1] + (("dc", 1, "Some"), ("f", 0, "0"))))),))
+
+
+def _apply_fn_item(it, S, t, fn_op, x):
+    """result of calling the function item fn_op (a constant operand) on x, for the few functions that are pure value maps"""
+    k = fn_op.get("k") if isinstance(fn_op, dict) else None
+    name = ""
+    if k:
+        name = (k.get("t") or {}).get("s", "")
+    m = re.search(r"\{(.*)\}$", name)
+    fname = m.group(1) if m else ""
+    if fname.endswith("Ordering::reverse"):
+        if isinstance(x, tuple) and x[0] == "agg" and x[1] == "core::cmp::Ordering":
+            return ORDERING(2 - x[2])
+        return ("model", "reverse", x)
+    if fname.endswith("Option::Some") or fname.endswith("option::Option::<T>::Some"):
+        return ("agg", "core::option::Option", 1, (x,))
+    return None
+
+
+@model("core::option::Option::map")
+def m_option_map(it, S, t, callee, args):
+    # None -> None, Some(x) -> Some(f(x)); decided here only for function items that are pure value maps
+    v = args[0]
+    while isinstance(v, tuple) and v[0] == "upd" and isinstance(v[1], tuple) and v[1][0] == "agg":
+        v = v[1]
+    if isinstance(v, tuple) and v[0] == "agg" and v[1] == "core::option::Option":
+        if v[2] == 0:
+            return ("agg", "core::option::Option", 0, ())
+        y = _apply_fn_item(it, S, t, t["args"][1], v[3][0])
+        if y is not None:
+            return ("agg", "core::option::Option", 1, (y,))
+    return None
 
 
 @model("core::option::Option::ok_or")
